@@ -48,6 +48,7 @@ type ExecCfg struct {
 	PermSites    bool     `json:"perm_sites"`
 	PermListings bool     `json:"perm_listings"`
 	SharedDeps   bool     `json:"shared_deps"`
+	RealReader   bool     `json:"real_file_reader,omitempty"` // real protobuild.fileReader over an in-memory fs.FS (no read faults)
 	Ops          []Op     `json:"ops"`
 	MaskSites    []string `json:"mask_sites,omitempty"` // sites forced to identity order
 	MaskCalls    []int    `json:"mask_calls,omitempty"` // decision indices forced to identity order
@@ -214,7 +215,7 @@ type FileOut struct {
 
 type psState struct {
 	ps     *protobuild.PackageSet
-	src    *memSource
+	src    *memSource // nil when the real file reader is used
 	deps   *memDeps
 	faulty bool // a fault was injected on this PackageSet
 	linted bool // LoadLocalPackage / LintAll / LintFile ran on this PackageSet
@@ -377,7 +378,18 @@ func runExec(p *Program, ref Reference, cfg ExecCfg, stats *Stats) (*Violation, 
 		if deps == nil {
 			deps = newMemDeps(p, ex)
 		}
-		ps, err := protobuild.NewPackageSet(deps, src)
+		var lfs protobuild.LocalFileSource = src
+		if cfg.RealReader {
+			real, err := realFileSource(p, ex)
+			if err != nil {
+				return nil, err
+			}
+			lfs = real
+			if stats != nil {
+				stats.Probes["real_file_reader_sets"]++
+			}
+		}
+		ps, err := protobuild.NewPackageSet(deps, lfs)
 		if err != nil {
 			return nil, err
 		}
@@ -587,6 +599,7 @@ func genExecCfg(p *Program, seed uint64) ExecCfg {
 		cfg.PermSites, cfg.PermListings = rng.Bool(0.7), rng.Bool(0.7)
 	}
 	cfg.SharedDeps = rng.Bool(0.3)
+	cfg.RealReader = rng.Bool(0.2)
 	cfg.Ops = genOps(p, cfg.Mode, rng)
 	return cfg
 }
